@@ -9,7 +9,7 @@ from ..model import AnalysisError, Func, Repo, is_self_attr, short, walk_no_nest
 from ..report import RuleResult
 from .c04 import build_kernels, BASE_FILE, COO_FILE
 from .c10 import r10_2
-from .common import expand_locals, kw, norm, single_defs
+from .common import comp_elt_form, value_form, expand_locals, kw, norm, single_defs
 
 
 def r11_1(repo: Repo) -> RuleResult:
@@ -104,11 +104,13 @@ def _collected(f: Func, name: str) -> Set[str]:
             e = n.args[0]
         elif isinstance(n, ast.Assign) and isinstance(n.targets[0], ast.Name) and n.targets[0].id == name \
                 and isinstance(n.value, ast.ListComp):
-            e = n.value.elt
+            x = _StripDtype().visit(copy.deepcopy(expand_locals(n.value, f, 4)))
+            out.add(comp_elt_form(x, f, n))
+            continue
         if e is not None:
             x = expand_locals(e, f, 4)
             x = _StripDtype().visit(copy.deepcopy(x))
-            out.add(norm(x))
+            out.add(value_form(x, f, n))
     return out
 
 
@@ -117,8 +119,8 @@ def _collected_expr(f: Func, e: ast.AST) -> Set[str]:
     if isinstance(e, ast.Name):
         return _collected(f, e.id)
     if isinstance(e, ast.ListComp):
-        x = _StripDtype().visit(copy.deepcopy(expand_locals(e.elt, f, 4)))
-        return {norm(x)}
+        x = _StripDtype().visit(copy.deepcopy(expand_locals(e, f, 4)))
+        return {comp_elt_form(x, f, e)}
     return set()
 
 
@@ -182,8 +184,8 @@ def r11_3(repo: Repo) -> RuleResult:
             if app in repo.resolve_call(b, c):
                 tup = repo.bind_args(app, c).get(app.params[1])
                 if isinstance(tup, ast.Tuple) and tup.elts:
-                    row_b = norm(expand_locals(tup.elts[0], b, 3))
-        row_e = norm(expand_locals(bound["target_gram_ind"], e, 3))
+                    row_b = value_form(tup.elts[0], b, c)
+        row_e = value_form(bound["target_gram_ind"], e, calls[0])
         if row_b != row_e:
             problems.append("row id differs: build `%s` vs EM `%s`" % (row_b, row_e))
         # the EM kernel must hand over the very windows/kernels it built
